@@ -1,6 +1,7 @@
 CONSTANTS
   InitPrios <- P123
   SetPrios = {1, 2, 3}
+  SetPrioMsgs = {1, 2, 3, 4}
   Alphabet <- AlphaPertNoTick
   K = 0
   ReAddPinned = FALSE
